@@ -5,6 +5,6 @@ Require Extraction. Require Import ExtrOcamlBasic.
 Extraction Language OCaml.
 Extraction "../ocaml/gen/gate_ex.ml" gate_check gate_validate_cmd gate_show validate_semantics
   context_from_config apply_cli_overrides in_domain known17
-  k_rule_warn_threshold k_expires k_cli_after_validation k_overflow k_dormant_glob
+  k_rule_warn_threshold k_expires k_cli_after_validation k_overflow k_dormant_glob k_lenient_date date_strict
   parse_duration date_valid unit_range retention_cutoff structure_enabled
   N.add N.mul Z.opp Z.of_N Build_behav Build_flags Build_config Build_content_rule Build_struct_rule.
